@@ -176,7 +176,7 @@ def _registry():
             'assumptions': ['files are identified by path text (the implementation uses canonical paths)']},
     'C16': {'proofs': 'C16', 'streams': [S('listops', pstreams.c16_cases), S('listops-gc', pstreams.c16_cases, sched='1')],
             'rule': 'listops stream: operation sequences (<= 15, thorough <= 40) from the empty list through two aliases, positions {0, mid, len-1, len, len+1, -1, 0.5, huge, NaN, non-number}', 'assumptions': []},
-    'C17': {'proofs': 'C17', 'streams': [S('text', pstreams.c17_cases, flags='-')],
+    'C17': {'proofs': 'C17', 'streams': [S('text', pstreams.c17_cases, flags='-', extra_check=c17_check)],
             'rule': 'text stream: split/join on strings over {a, b, ক} with separators of length 0-3 (thorough: all |s|<=6, |sep|<=2 over 2 letters), join-then-split of lists, type names of all 7 types, wrong argument counts/types', 'assumptions': []},
     'C18': {'proofs': 'C18', 'streams': [S('print', pstreams.c18_cases, flags='-')],
             'rule': 'print stream: every scalar class, containers to depth 4 in every list/record mix, shared sub-containers, both print statements, unprintable values nested and top-level; exact chunk sequence compared (record entries in key order)',
@@ -353,7 +353,9 @@ def diff_programs(ctx, name, cases, sched=None, flags=None, nontrivial=None, shr
         elif not vlib.lines_agree(a, b): why = 'implementation and model disagree'
         elif extra_check:
             why = extra_check(c, a)
-        if why: bad.append((c, li, a, b, why))
+        cls = None
+        if isinstance(why, tuple): why, cls = why
+        if why: bad.append((c, li, a, b, why, cls))
     ctx.evaluations += len(cases); ctx.validated += len(cases) - disc
     srcs = set(c['src'] for c in cases)
     ctx.nontrivial += len([s for s in srcs if (nontrivial(s) if nontrivial else s.count('\n') >= 2)])
@@ -362,20 +364,25 @@ def diff_programs(ctx, name, cases, sched=None, flags=None, nontrivial=None, shr
         c = cases[len(cases) // 2]
         ctx.samples.append({'stream': name, 'kind': c.get('kind'), 'source': c['src'][:1200], 'files': [f[0] for f in c.get('files', ())], 'implementation': vlib.canon_result(c['_impl'])[:400]})
     bad.sort(key=lambda b: len(b[0]['src']))
-    for c, li, a, b, why in bad[:2]:
+    # one representative per class of failure (a known-finding class must not hide a different failure)
+    reps, seen_cls = [], collections.Counter()
+    for x in bad:
+        if seen_cls[x[5]] < (2 if x[5] is None else 1): reps.append(x)
+        seen_cls[x[5]] += 1
+    for c, li, a, b, why, cls in reps[:4]:
         small = c['src']
-        if shrink:
+        if shrink and cls is None:
             def still(cands):
                 cs = [dict(c, src=s) for s in cands]
                 ls = [case_line(x, sched, flags) for x in cs]
                 ii, mm = oracle_and_model(ctx, ls, 'shr')
-                return [(not vlib.lines_agree(x, y)) or x in ('panic', 'hang') or (extra_check is not None and extra_check(cc, x) is not None) for cc, x, y in zip(cs, ii, mm)]
+                return [(not vlib.lines_agree(x, y)) or x in ('panic', 'hang') or (extra_check is not None and extra_check(cc, x) not in (None,)) for cc, x, y in zip(cs, ii, mm)]
             try: small = shrink_lines(c['src'], still)
             except Exception as ex: log('shrink failed: %r' % ex)
         cc = dict(c, src=small)
         l2 = case_line(cc, sched, flags)
         ii, mm = oracle_and_model(ctx, [l2], 'shr')
-        ctx.failing.append({'stream': name, 'why': why, 'kind': c.get('kind'), 'source': small, 'files': list(c.get('files', ())), 'case_line': l2,
+        ctx.failing.append({'stream': name, 'why': why, 'class': cls, 'kind': c.get('kind'), 'source': small, 'files': list(c.get('files', ())), 'case_line': l2,
                             'implementation': vlib.canon_result(ii[0])[:3000], 'model': vlib.canon_result(mm[0])[:3000], 'original_source': c['src'][:4000], 'others': len(bad)})
     return impl, model
 
@@ -500,6 +507,36 @@ def stream_chains(ctx):
                 ctx.failing.append({'stream': 'chains-history', 'why': 'an if/else chain behaved differently after an execution history', 'kind': c['kind'], 'source': c['src'],
                                     'case_line': case_line(c, None, '-'), 'implementation': a[:1500], 'chain_alone': al[:1500]})
     ctx.evaluations += len(alone)
+
+
+def _chunk_texts(a):
+    out, end = ends_of(a)
+    return [dec(x[2:]) for x in out.split(' ')[1:] if x], end
+
+
+def c17_check(c, a):
+    """C17 on the implementation's own output"""
+    texts, end = _chunk_texts(a)
+    if c.get('kind') == 'split' and end == ('ok',) and c['sep'] != '':
+        # program prints: the fields, their count, the re-joined string (last chunk)
+        if texts[-1] != c['s']: return 'joining the fields of a split does not return the original string'
+        want = c['s'].split(c['sep'])
+        if texts[-2] != genprog.bn(len(want)): return 'split yields %s fields, the string has %d separator-delimited fields' % (texts[-2], len(want))
+    if c.get('kind') == 'split' and end == ('ok',) and c['sep'] == '':
+        if texts[-2] != genprog.bn(len(c['s'])): return 'splitting by the empty string does not yield the characters'
+    if c.get('kind') == 'join' and end == ('ok',) and c['sep'] != '' and c['list'] and all(c['sep'] not in x for x in c['list']):
+        # prints: joined, then the list rendering [e1, e2, ...]
+        joined = c['sep'].join(c['list'])
+        got = [t for t in texts[2:-1] if t != ', '] if len(texts) >= 3 else None
+        # an empty-string element is an empty chunk, which dec() gives as ''; rebuild from the raw chunks
+        raw = ends_of(a)[0].split(' ')[1:]
+        elems = [dec(x[2:]) for x in raw[2:-1]]
+        elems = [e for i, e in enumerate(elems) if not (e == ', ' and i % 2 == 1)]
+        if elems != c['list']:
+            n_occ = sum(1 for i in range(len(joined)) if joined.startswith(c['sep'], i))
+            cls = 'D23-straddle' if n_occ > len(c['list']) - 1 else None
+            return ('split after join does not return the list although no element contains the separator: %r sep %r -> %r' % (c['list'], c['sep'], elems), cls)
+    return None
 
 
 def simple_stream(name, gen, **kw):
